@@ -643,7 +643,7 @@ func (eng *Engine) buildAll(f *ssa.Function) []*FnVC {
 		con := *eng.specs.Contracts[k]
 		if own := eng.specs.Contracts[fnKey(f)]; own != nil {
 			// loop invariants are hints about the body, whichever contract it is checked against
-			con.Invs, con.Decr, con.Steps, con.Assumes = own.Invs, own.Decr, own.Steps, own.Assumes
+			con.Invs, con.Decr, con.Steps, con.ExitSteps, con.Assumes = own.Invs, own.Decr, own.Steps, own.ExitSteps, own.Assumes
 		}
 		out = append(out, eng.buildVCWith(f, &con, fnKey(f)+"~as~"+short))
 	}
